@@ -340,6 +340,7 @@ impl<'a> Binder<'a> {
                         return Err(QueryError::NotImplemented("MINUS (use EXCEPT)".to_string()))
                     }
                     ast::SetOperator::Union => {
+                        let (left_plan, right_plan) = coerce_union_inputs(left_plan, right_plan);
                         let schema = left_plan.schema();
                         // UNION ALL keeps duplicates, plain UNION removes them
                         let all = matches!(set_quantifier, ast::SetQuantifier::All);
@@ -4375,6 +4376,97 @@ fn const_scalar(expr: &Expr) -> Option<ScalarValue> {
         },
         _ => None,
     }
+}
+
+/// The type two UNION inputs share in one column: the wider integer, Float64 as soon as a
+/// float meets another numeric type; anything else keeps the left input's type as before.
+fn common_union_type(left: &ArrowDataType, right: &ArrowDataType) -> ArrowDataType {
+    use ArrowDataType::*;
+    let rank = |t: &ArrowDataType| match t {
+        Int8 => 1,
+        Int16 => 2,
+        Int32 => 3,
+        Int64 => 4,
+        Float32 => 5,
+        Float64 => 6,
+        _ => 0,
+    };
+    match (rank(left), rank(right)) {
+        _ if left == right => left.clone(),
+        (0, _) | (_, 0) => left.clone(),
+        (l, r) if l <= 4 && r <= 4 => {
+            if l >= r {
+                left.clone()
+            } else {
+                right.clone()
+            }
+        }
+        _ => Float64,
+    }
+}
+
+/// Cast the columns of a UNION input whose type differs from `targets`.
+fn cast_union_input(plan: LogicalPlan, targets: &[ArrowDataType]) -> LogicalPlan {
+    let schema = plan.schema();
+    let fields = schema.fields();
+    if fields.iter().zip(targets).all(|(f, t)| &f.data_type == t) {
+        return plan;
+    }
+    // Columns are addressed by name below: leave an input with repeated names alone.
+    let mut names: Vec<(&Option<String>, &String)> =
+        fields.iter().map(|f| (&f.relation, &f.name)).collect();
+    names.sort();
+    names.dedup();
+    if names.len() != fields.len() {
+        return plan;
+    }
+    let mut exprs = Vec::with_capacity(fields.len());
+    let mut out = Vec::with_capacity(fields.len());
+    for (f, target) in fields.iter().zip(targets) {
+        let column = Expr::Column(Column {
+            relation: f.relation.clone(),
+            name: f.name.clone(),
+        });
+        let mut field = f.clone();
+        if &f.data_type == target {
+            exprs.push(column);
+        } else {
+            exprs.push(Expr::Alias {
+                expr: Box::new(Expr::Cast {
+                    expr: Box::new(column),
+                    data_type: target.clone(),
+                }),
+                name: f.name.clone(),
+            });
+            field.data_type = target.clone();
+        }
+        out.push(field);
+    }
+    LogicalPlan::Project(ProjectNode {
+        input: Arc::new(plan),
+        exprs,
+        schema: PlanSchema::new(out),
+    })
+}
+
+/// UNION inputs whose numeric column types differ are cast to the common type, so that neither
+/// the declared schema nor the de-duplication reads one input's values at the other's width
+/// (an INTEGER column UNION a BIGINT column wrapped the BIGINT values to 32 bits).
+fn coerce_union_inputs(left: LogicalPlan, right: LogicalPlan) -> (LogicalPlan, LogicalPlan) {
+    let (ls, rs) = (left.schema(), right.schema());
+    if ls.fields().len() != rs.fields().len() {
+        return (left, right);
+    }
+    let targets: Vec<ArrowDataType> = ls
+        .fields()
+        .iter()
+        .zip(rs.fields())
+        .map(|(l, r)| common_union_type(&l.data_type, &r.data_type))
+        .collect();
+    (
+        cast_union_input(left, &targets),
+        cast_union_input(right, &targets),
+    )
 }
 
 #[cfg(test)]
